@@ -164,6 +164,9 @@ func specEval(k int, e entry) evald {
 		if err != nil {
 			return bad
 		}
+		if glob && (math.IsNaN(f) || math.IsInf(f, 0)) {
+			return bad // a chain global must be a finite number (config.StringToInterface)
+		}
 		return evald{key, stValid, pick(svF(f))}
 	case "bool":
 		b, err := strconv.ParseBool(val)
